@@ -15,7 +15,7 @@ LEVEL = 'exploration'
 JOBS = {'quick': 2, 'thorough': 16}
 REQUIRED_MONITORS = ('move_contract', 'displ_contract')
 REQUIRED_CLASSES = ('move:tree', 'move:cyclic', 'displ:1', 'displ:2', 'displ:3', 'displ:4+',
-                    'table:agrees', 'table:disagrees', 'table:all-bonds-one-length', 'embedded:mc-moves', 'graph:forest',
+                    'table:agrees', 'table:disagrees', 'table:all-bonds-one-length', 'call:displacement-given-atom-omitted', 'embedded:mc-moves', 'graph:forest',
                     'sequence:same-table-object', 'sequence:table-lengths-edited-in-place',
                     'sequence:table-graph-edited-in-place', 'sequence:positions-edited-in-place',
                     'sequence:other-table-same-size', 'sequence:refused-call-before')
@@ -125,6 +125,9 @@ def one_move(ctx, rng, n, edges, atom, kind, key=None, dcls=None):
     try:
         if displ is None:
             out = move(pos, info, atom_index=atom, sigma_scale=sigma)
+        elif rng.random() < 0.1:
+            out = move(pos, info, displ=displ) if rng.random() < 0.5 else move(pos, info, None, displ)
+            ctx.hit('call:displacement-given-atom-omitted')
         else:
             out = move(pos, info, atom_index=atom, displ=displ)
     except Exception as exc:  # noqa
